@@ -9,6 +9,45 @@ def all_bits(n):
     return [''.join(p) for p in itertools.product('01', repeat=n)] if n else ['']
 
 
+def huge_cases(rnd, family, T):
+    """operands and amounts beyond 16384 / 32768 / 65536 bits (2, 4, 8 KiB of content): blocks, tables and constants of a fixed size that an
+    implementation may use internally are exceeded here; either padding side, lengths that are not byte multiples, operands of opposite sides"""
+    out = []
+    sizes = [16385, 16391, 32769, 32775, 40001, 65543] if T else [16391, 32775, 40001]
+    for n in sizes:
+        for sd in SIDES:
+            a = (randbits(rnd, n), sd)
+            other = 'L' if sd == 'R' else 'R'
+            if family == 'C05':
+                out.append(('iter', [a], ()))
+                out.append(('getitem', [a], (rnd.randint(0, 9), n - rnd.randint(0, 9))))
+                out.append(('getitem', [a], (n - 20000, n - 3)))
+                out.append(('add', [(randbits(rnd, rnd.choice([3, 8, 13])), rnd.choice(SIDES)), a], ()))
+                out.append(('add', [a, (randbits(rnd, 8195), other)], ()))
+                out.append(('add', [(randbits(rnd, 8195), other), a], ()))
+                out.append(('setitem', [a, (randbits(rnd, 8197), other)], (5, 9)))
+                out.append(('pad', [a], (other, 0)))
+                out.append(('copy', [a], ()))
+            elif family == 'C06':
+                out.append(('invert', [a], ()))
+                out.append(('value', [a], ()))
+                for op in ('and', 'or', 'xor'):
+                    out.append((op, [a, (randbits(rnd, n), rnd.choice(SIDES))], ()))
+                out.append(('shift', [a], (rnd.choice([-3, 5, n - 7]), 0)))
+                out.append(('chunks', [a], (rnd.choice([16, 4096, 32768]), rnd.randint(0, 1))))
+            else:
+                out.append(('eq', [a, (a[0], other)], ()))
+                out.append(('hash', [a, (a[0], other)], ()))
+                out.append(('eq', [a, (a[0][:-1] + ('1' if a[0][-1] == '0' else '0'), other)], ()))
+    if family == 'C06':
+        # huge shift AMOUNTS on small and large buffers
+        for amount in ([-32769, -32776, -40003, -65537, 32769, 70000] if T else [-32776, -40003, 40000]):
+            for sd in SIDES:
+                for n in (7, 12, 64):
+                    out.append(('shift', [(randbits(rnd, n), sd)], (amount, rnd.randint(0, 1))))
+    return out
+
+
 def gen_c05(rnd, tier):
     T = tier == 'thorough'
     maxlen = 40 if T else 22
@@ -103,6 +142,7 @@ def gen_c05(rnd, tier):
                     cases.append(('iter', [(c, sd)], ()))
                     s = rnd.randint(0, n)
                     cases.append(('getitem', [(c, sd)], (s, rnd.randint(s, n))))
+    cases += huge_cases(rnd, 'C05', tier != 'quick')
     return cases
 
 
@@ -166,6 +206,7 @@ def gen_c06(rnd, tier):
                     cases.append(('value', [a], ()))
                     cases.append(('invert', [a], ()))
                     cases.append(('shift', [a], (rnd.randint(-10, n + 2), 0)))
+    cases += huge_cases(rnd, 'C06', tier != 'quick')
     return cases
 
 
@@ -224,6 +265,7 @@ def gen_c13(rnd, tier):
             cases.append(('eqbytes', [a], (content,)))
             cases.append(('eqbytes', [a], (bytes([content[0] ^ 1]) + content[1:] if content else b'\x00',)))
             cases.append(('hashkey', [a], (content,)))
+    cases += huge_cases(rnd, 'C13', tier != 'quick')
     return cases
 
 
